@@ -4,7 +4,7 @@ import re
 from aq import sym
 from aq.core import Property
 from aq.sym import show, strip_after
-from aq.util import (call_args, calls_in, const_int, cpaths, fp, has_call, in_test_code, ob, ok_paths, paths,
+from aq.util import (call_args, calls_in, const_int, cpaths, field_uses, fp, has_call, in_test_code, ob, ok_paths, paths,
                      unit_layout, unwrap_origin, who_calls, who_constructs)
 
 PROP = Property(
@@ -13,9 +13,10 @@ PROP = Property(
     "back ends: non-connect replies and swarm calls only on the true edge of connection_id_valid(source, the "
     "request's id); per received datagram at most one send, exactly one for connect / valid id, none for "
     "source port 0; reply transaction id, destination and kind originate from the request and its source; "
-    "connect reply (16 bytes) is not larger than the smallest accepted connect request.",
+    "connect reply (16 bytes) is not larger than the smallest accepted connect request; the mio resend buffer only "
+    "holds replies whose single send failed and retries each once with queueing off.",
     ["aqfacts MIR extraction", "kernel delivery of sendto/sendmsg", "C13 (codec) and C05 (validator)"],
-    ["resend buffer timing and kernel behaviour are not decided", "paths enumerated with the receive loop unrolled once; feasibility not solved"],
+    ["kernel behaviour (whether a failed send_to delivered anything) is not decided", "paths enumerated with the receive loop unrolled once (quick) or twice (thorough); feasibility not solved"],
 )
 MIO_H = "aquatic_udp::workers::socket::mio::WorkerSharedData::handle_request"
 URING_H = "aquatic_udp::workers::socket::uring::SocketWorker::handle_request"
@@ -431,3 +432,66 @@ def scrape_order(fx):
     want = {"self.max_scrape_torrents", "shared.config.protocol.max_scrape_torrents"}
     yield ob("R-C06-6", "scrape#limit_origin", lim == want and news == {"config.protocol.max_scrape_torrents"}, None, None,
              "parse_bytes limit argument: %s; uring helper field <- %s" % (sorted(lim), sorted(news)), {"limit": sorted(lim), "helper_field": sorted(news)})
+
+
+@PROP.rule("R-C06-7", floor=3, doc="mio resend buffer: a reply is queued only after its send failed and only when resending is enabled; a queued reply is retried once, with queueing disabled; nobody else touches the buffer")
+def resend(fx):
+    b = fx.fn("aquatic_udp::workers::socket::mio::socket::Socket::send_response")
+    ps = [p for p in cpaths(fx, b) if p.end == "return"]
+    n_push = 0
+    bad = []
+    for p in ps:
+        for i, e in enumerate(p.effects):
+            if not (e[0] == "call" and re.search(r"Vec::push$", e[1])):
+                continue
+            n_push += 1
+            # the pushed pair is this call's own (canonical_addr, response)
+            pushed = show(strip_after(e[2][1]))
+            if pushed != "(canonical_addr, response)":
+                bad.append("pushes %s" % pushed[:60])
+            # target is the socket's resend buffer
+            if "opt_resend_buffer" not in show(strip_after(e[2][0])):
+                bad.append("push target %s" % show(strip_after(e[2][0]))[:60])
+            # send_to was attempted before and returned Err on this path
+            st = [j for j, x in enumerate(p.effects) if x[0] == "call" and re.search(r"UdpSocket::send_to$", x[1]) and j < i]
+            if len(st) != 1:
+                bad.append("push without a prior send_to")
+            err = [a for a in p.atoms if a["neff"] <= i and (sym.atom_variant(fx, a) or (None, None, None, None))[1:3] == (("Err",), True)
+                   and "UdpSocket::send_to" in show(a["discr"])]
+            err = err or [a for a in p.atoms if a["neff"] <= i and "UdpSocket::send_to" in show(a["discr"]) and _is_err_atom(fx, a)]
+            if not err:
+                bad.append("push not under send_to -> Err")
+            dis = [sym.atom_bool(a) for a in p.atoms if a["neff"] <= i]
+            dis = [x for x in dis if x and show(strip_after(x[0])) == "disable_resend_buffer"]
+            if not dis or dis[-1][1] is not False:
+                bad.append("push not under !disable_resend_buffer")
+    yield ob("R-C06-7", "resend#mio#queue_only_failed", n_push >= 1 and not bad, b, None,
+             "%d push effect(s) over %d paths: each after exactly one failed send_to, under !disable_resend_buffer, queues (canonical_addr, response) %s"
+             % (n_push, len(ps), bad[:3]), {"pushes": n_push})
+    b = fx.fn("aquatic_udp::workers::socket::mio::socket::Socket::resend_failed")
+    ps = cpaths(fx, b)
+    n = 0
+    bad = []
+    for p in ps:
+        for e in p.calls(r"Socket::send_response$"):
+            n += 1
+            a = [strip_after(x) for x in e[2]]
+            addr, resp, flag = show(a[2]), show(a[3]), a[4]
+            if not (re.search(r"Drain as Iterator>::next\(", addr) and addr.endswith(".0.0") and resp == addr[:-1] + "1"):
+                bad.append("retry args %s / %s" % (addr[-40:], resp[-40:]))
+            if not (flag[0] == "c" and flag[3] in (1, True)):
+                bad.append("retry with queueing enabled: %s" % show(flag))
+    src = [e for p in ps for e in p.calls(r"Vec::drain$")]
+    yield ob("R-C06-7", "resend#mio#retry_once", n >= 1 and not bad and bool(src), b, None,
+             "%d retry send_response call(s): (addr, reply) come from one drained element, disable_resend_buffer = true %s" % (n, bad[:3]), {"retries": n})
+    # who touches the buffer
+    uses = field_uses(fx, r"mio::socket::Socket$", "opt_resend_buffer", crates={"aquatic_udp"})
+    owners = sorted({u[0].short.split("::")[-1] for u in uses if not in_test_code(u[0])})
+    allowed = {"send_response", "resend_failed", "create"}
+    yield ob("R-C06-7", "resend#mio#who_touches_buffer", bool(owners) and set(owners) <= allowed, None, None,
+             "opt_resend_buffer is used by %s" % owners, {"users": owners})
+
+
+def _is_err_atom(fx, a):
+    v = sym.atom_variant(fx, a)
+    return bool(v) and v[1] and v[1][0] == "Err" and v[2]
